@@ -21,22 +21,22 @@ LEVEL_TEXT = ('All fitter configurations within 2 (quick) / 3 (thorough) deviati
               'The reference recomputes the distance grid (end points, log-uniformity, fewest points for the step), two-point aperture interpolation '
               'with clamping above the table, inverse-square scaling, the clipped 1-parameter A_V at every distance, chi^2 with limit penalties and the '
               'minimum over the grid; reported scale must be a grid point, A_V and chi^2 must be the reference values at that point and chi^2 the grid minimum.')
-LEVEL_NOTE = ('Finite value alphabets for fluxes/apertures/photometry (fixed + seed-derived); when the log range is within 1e-9 of an integer multiple of the '
-              'step, n and n+1 points are both accepted; a smallest request within 4 ulp of the smallest tabulated aperture may be refused; float32 '
+LEVEL_NOTE = ('Finite value alphabets for fluxes/apertures/photometry (fixed + seed-derived); the point count is decided in exact (60-digit) arithmetic on the float inputs; a count produced by the '
+              'obvious float formulas is also accepted when it differs only through rounding noise (< 1e-12) of the quotient; a smallest request within 4 ulp of the smallest tabulated aperture may be refused; float32 '
               'memory-mapped path judged with a propagated tolerance. Trusts astropy.io.fits and numpy.')
 RULE = ("cases: fitter configurations with <= k deviations from the default; executions: one Fitter.fit per (flag vector, photometry set), one evaluation per "
         "(fit, model) row, each compared at every grid distance; non-trivial = distinct (configuration, flags, photometry) with >1 grid distance")
 ASSUMPTIONS = ["finite value alphabets (DESIGN.md section 0)", "theta*dmin not below the smallest aperture (precondition)",
                "sources have >= 1 fitted point with non-zero extinction coefficient"]
 REQUIRED_CLASSES = ['n_distances==1', 'aperture-beyond-table', 'best-at-first', 'best-interior', 'best-at-last', 'av-clipped-some-distances',
-                    'range-multiple-of-step', 'float32-path', 'limit-violated', 'non-monotone-growth', 'mixed-theta', 'request-on-smallest-aperture']
+                    'range-multiple-of-step', 'range-exact-multiple-exact-arithmetic', 'float32-path', 'limit-violated', 'non-monotone-growth', 'mixed-theta', 'request-on-smallest-aperture']
 TIMEOUT = {'quick': 300, 'thorough': 1800}
 
 AXES = {
     'n_ap': [3, 2, 5, 8],
     'grid': ['mono', 'irregular', 'arbitrary'],
-    'range': ['ord', 'eq', 'beyond', 'onsmallest', 'multiple', 'nonmultiple'],
-    'step': [0.3, 0.1],
+    'range': ['ord', 'eq', 'beyond', 'onsmallest', 'multiple', 'nonmultiple', 'exactmultiple'],
+    'step': [0.3, 0.1, 0.25],
     'variant': [0, 1, 2, 3],
     'avr': [(-40.0, 40.0), (0.0, 1.0), (2.5, 2.5)],
     'theta': ['uniform', 'mixed'],
@@ -48,7 +48,7 @@ BANDS = ['B1', 'B3', 'B5']
 def setup(tier, seed):
     axes = dict(AXES)
     if tier == 'thorough':
-        axes = dict(axes, step=[0.3, 0.1, 0.025])
+        axes = dict(axes, step=[0.3, 0.1, 0.25, 0.025])
     cfgs = list(deviation_bounded(axes, 2 if tier == 'quick' else 3))
     return {'tier': tier, 'seed': seed, 'cfgs': cfgs, 'psets': 3 if tier == 'quick' else 6}
 
@@ -77,6 +77,8 @@ def _range(kind, step, ap, theta):
         return 1.0, 10 ** (3 * step)
     if kind == 'nonmultiple':
         return 1.0, 2.7
+    if kind == 'exactmultiple':
+        return 1.0, 10.0            # log range exactly 1: an exact multiple of the steps 0.25 and 0.1 (float arithmetic exact for 0.25)
     raise ValueError(kind)
 
 
@@ -121,8 +123,10 @@ def run_case(ctx, case, rec, d):
         return
     if len(grid) == 1:
         rec.cls('n_distances==1')
-    if case['range'] == 'multiple':
+    if case['range'] in ('multiple', 'exactmultiple'):
         rec.cls('range-multiple-of-step')
+    if case['range'] == 'exactmultiple' and step == 0.25:
+        rec.cls('range-exact-multiple-exact-arithmetic')
     k = fc.law_k('power', [fc.BAND_WAV[b] for b in BANDS])
     logm3 = fitref.model_logflux_3d([tables[:, b, :] for b in range(len(BANDS))], [ap] * len(BANDS), theta, grid)
     if np.any(np.array(theta)[None, :] * grid[:, None] * 1000.0 > ap[-1]):
